@@ -18,6 +18,8 @@ Coverage (clause of the property -> kinds / calls):
                                                 sets), keep / drop / append_variables, append_data_vectors
   documented aliases .......................... spin / binary views, CQM expression views (act "view")
   later in-place edits on either side ......... act "edit" through any handle incl. views; nested info values
+  instance state beyond the data ............... sample sets resolved from a future with wait_id() (cached problem id; every other
+                                                instance attribute and wait_id() are compared before / after every copy-producing call)
 Not reached: CQM / QM pickling (not claimed by the property), DQM with shared case labels, SampleSet builders on future-backed sets."""
 import copy
 import json
@@ -123,6 +125,32 @@ def snap(obj, kind):
     raise ValueError(kind)
 
 
+class IdFuture:
+    """a finished computation with a problem id (the shape of dwave.cloud's Future that SampleSet.resolve / wait_id look at)"""
+
+    def __init__(self, value, pid):
+        self._value, self._pid = value, pid
+
+    def done(self):
+        return True
+
+    def result(self):
+        return self._value
+
+    def wait_id(self, timeout=None):
+        return self._pid
+
+
+def inst_state(obj, kind):
+    """what a sample set instance carries BESIDES its data (record / labels / info / vartype): a sample set resolved from a
+    future with wait_id() caches the problem id.  A copy need not carry it, but no copy-producing call may change it on the
+    receiver or on any other live object."""
+    if kind != 'ss':
+        return None
+    return [sorted((k, repr(v)) for k, v in obj.__dict__.items() if k not in ('_record', '_variables', '_info', '_vartype')),
+            repr(obj.wait_id())]
+
+
 def clone(obj, kind):
     if kind in ('bqm', 'ss', 'vars'):
         return pickle.loads(pickle.dumps(obj))
@@ -177,6 +205,11 @@ def build(kind, rng):
                                           energy=[float(rng.choice(DY)) for _ in range(m)],
                                           num_occurrences=[rng.randint(1, 3) for _ in range(m)],
                                           info={'id': 1, 'nested': {'a': [1]}}, tag=np.arange(m), sort_labels=rng.random() < 0.5)
+        if rng.random() < 0.35:
+            # as a QPU computation delivers it: resolved from a future that has wait_id(); resolution caches the problem id
+            # on the instance, and copy-producing calls (pickle, deepcopy, ...) must leave that on the receiver
+            ss = dimod.SampleSet.from_future(IdFuture(ss, 'problem-%d' % rng.randint(0, 99)))
+            ss.resolve()
         return ss, 'ss'
     if kind == 'vars':
         return Variables(gen.rand_labels(rng, rng.randint(1, 5))), 'vars'
@@ -584,6 +617,13 @@ def run_case(c):
                 name, f, hterm = r.choice(calls)
                 feats["op"] = name
                 before = [sid(snap(x.obj, x.kind)) for x in handles]
+                st_before = [inst_state(x.obj, x.kind) for x in handles]
+
+                def state_kept():
+                    nonlocal fail
+                    if [inst_state(x.obj, x.kind) for x in handles[:len(st_before)]] != st_before:
+                        fail = fail or f"{name} (or the pickle round trip used to clone the receiver) changed the instance state of a live sample set (cached problem id)"
+                        feats["instance_state_changed"] = True
                 cl = clone(ow.obj, ow.kind)
                 clh = VIEWS[h.w](cl) if h.parent is not None else cl
                 try:
@@ -606,7 +646,9 @@ def run_case(c):
                     after = [sid(snap(x.obj, x.kind)) for x in handles]
                     if after != before:
                         fail = fail or f"raising {name} changed a live object"
+                    state_kept()
                     return
+                state_kept()
                 if expected is None:
                     fail = fail or f"{name} raised {eexc} on the clone but not on the object"
                     return
